@@ -1,0 +1,27 @@
+// Copyright © 2024 Attestant Limited.
+// Licensed under the Apache License, Version 2.0 (the "License");
+// you may not use this file except in compliance with the License.
+// You may obtain a copy of the License at
+//
+//     http://www.apache.org/licenses/LICENSE-2.0
+//
+// Unless required by applicable law or agreed to in writing, software
+// distributed under the License is distributed on an "AS IS" BASIS,
+// WITHOUT WARRANTIES OR CONDITIONS OF ANY KIND, either express or implied.
+// See the License for the specific language governing permissions and
+// limitations under the License.
+
+//go:build !verif
+
+// Package verifhook provides instrumentation points for deterministic simulation.
+// Without the 'verif' build tag every function is an empty, inlinable no-op.
+package verifhook
+
+// Point marks entry to a storage operation.  It never returns an error in normal builds.
+func Point(_ any, _ string, _ []byte) error { return nil }
+
+// PointDone marks the completion of a storage operation.
+func PointDone(_ any, _ string, _ []byte) {}
+
+// BeforeLock marks a blocking mutex acquisition that is about to happen.
+func BeforeLock(_ any, _ string, _ []byte) {}
